@@ -353,7 +353,11 @@ def answer (op : String) (args : List String) : String :=
       | some r => showRangeOpt r
       | none => "panic"
     | _ => "badreq"
-  | "const", [] => s!"{MAX_SAFE_INTEGER} {MAX_LENGTH}"
+  | "const", [] =>
+    -- `Deserialize` = parse of a JSON string; the model's `fromJson` rejects every non-string document
+    let bad := ["123", "null", "[\"1.2.3\"]", "{}", "\"not a version\"", "\"\""]
+    let allErr := bad.all (fun j => (Version.fromJson j.toList).isNone) && bad.all (fun j => (Range.fromJson j.toList).isNone)
+    s!"{MAX_SAFE_INTEGER} {MAX_LENGTH} deser_rejects={b01 allErr}"
   | _, _ => "badreq"
 
 /-! ## Oracles: spec-level checks of the crate's own answers -/
